@@ -19,7 +19,7 @@ FUNCS = CROP_FUNCS
 
 OPS = {
     0: "re-sow same shape", 1: "grow(i)", 2: "Crop.grow(subset)", 3: "grow_missing",
-    4: "grow(i) with a function that raises on a later setting", 5: "delete result i",
+    4: "grow(i) with a function that raises (Boom / StopIteration / KeyError / RuntimeError) on a later setting", 5: "delete result i",
     6: "result i of wrong length, then check_bad", 7: "result i unreadable, then check_bad",
     8: "reload the Crop and query", 9: "check_bad on a healthy crop",
 }
@@ -104,17 +104,19 @@ def body_step(E, B, per, f1, f2, f3, f4, fresh, op, i, s1, s2, s3, s4, base):
         elif op == 4:
             calls = []
 
+            exc = [Boom, StopIteration, KeyError, RuntimeError][(1 if cbool(s1) else 0) + (2 if cbool(s2) else 0)]
+
             def bad_fn(**kw):
                 calls.append(kw)
                 if len(calls) == per:      # raises on the last setting of the batch
-                    raise Boom()
+                    raise exc()
                 return 0
 
             try:
                 cp.grow(i, crop=crop, fn=bad_fn, verbosity=0)
-                return False
-            except Boom:
-                pass
+                return False               # a failing function must make the grow fail ...
+            except Exception:  # noqa  (a StopIteration may legitimately surface as RuntimeError)
+                pass                       # ... and (below) the batch must not count as finished
         elif op == 5:
             if i in F:
                 env.remove(rdir + "/xyz-result-%d.jbdmp" % i)
@@ -204,7 +206,7 @@ _SIG = "B:int per:int f1:bool f2:bool f3:bool f4:bool fresh:bool i:int s1:bool s
 CONDS = (
     split_conds(_G, "step", body_step, _SIG,
                 ["1 <= B <= 3 and 1 <= per <= 2 and 1 <= i <= B", "not f4 and not s4",
-                 "not (s1 or s2 or s3)"],
+                 "not s3 and (OP == 4 or not (s1 or s2))"],
                 "op", [0, 1, 3, 4, 5, 6, 7, 8, 9], timeout=300, tiers=("quick",),
                 bounds="pre-state: B<=3 batches (1-2 settings each), any finished subset, same or fresh Crop object; "
                        "then one operation with symbolic arguments; op: " + "; ".join("%d %s" % kv for kv in OPS.items()))
